@@ -183,8 +183,7 @@ func (fr *Frame) execInstr(ins ssa.Instruction, st *State) error {
 					if fr.parent != nil {
 						nm = funcKey(fr.fn) + ":" + nm
 					}
-					vc.instantiateForGoal(v.C[0], nil)
-					vc.oblige(st, "pre", nm, v.C[0], t.Pos(), r.Text)
+					vc.obligeHinted(st, "pre", nm, v.C[0], nil, t.Pos(), r.Text)
 				}
 			}
 		}
@@ -798,7 +797,47 @@ func (fr *Frame) execLookup(t *ssa.Lookup, st *State) error {
 // ---------------------------------------------------------------------
 // channels
 
+// chanInvOf: the declared invariant of the channel this SSA value denotes (a load of Struct.field)
+func (fr *Frame) chanInvOf(v ssa.Value) (*Clause, *types.Package) {
+	ld, ok := v.(*ssa.UnOp)
+	if !ok || ld.Op != token.MUL {
+		return nil, nil
+	}
+	fa, ok := ld.X.(*ssa.FieldAddr)
+	if !ok {
+		return nil, nil
+	}
+	st := fa.X.Type().Underlying().(*types.Pointer).Elem()
+	n := namedOf(st)
+	s, isS := isStruct(st)
+	if n == nil || !isS || n.Obj().Pkg() == nil {
+		return nil, nil
+	}
+	key := n.Obj().Pkg().Path() + "::" + n.Obj().Name() + "." + s.Field(fa.Field).Name()
+	if c, ok := fr.vc.eng.cs.ChanInvs[key]; ok {
+		return c, n.Obj().Pkg()
+	}
+	return nil, nil
+}
+
+func (fr *Frame) chanInvTerm(c *Clause, pkg *types.Package, v Value, et types.Type, st *State) (Term, error) {
+	env := map[string]bound{"v": {v, et}}
+	val, _, err := fr.evalIn(c.Text, pkg, env, st, st, nil)
+	if err != nil {
+		return "", fmt.Errorf("%s:%d: %v", c.File, c.Line, err)
+	}
+	return val.C[0], nil
+}
+
 func (fr *Frame) execSend(t *ssa.Send, st *State) error {
+	if c, pkg := fr.chanInvOf(t.Chan); c != nil && fr.dry == 0 {
+		et := t.Chan.Type().Underlying().(*types.Chan).Elem()
+		g, err := fr.chanInvTerm(c, pkg, fr.val(t.X), et, st)
+		if err != nil {
+			return err
+		}
+		fr.vc.oblige(st, "chaninv", c.Label, g, t.Pos(), c.Text)
+	}
 	ch := fr.val(t.Chan)
 	fr.chanSendEffect(st, ch.C[0])
 	fr.chanLastSent(st, ch.C[0], t.Chan.Type().Underlying().(*types.Chan).Elem(), fr.val(t.X))
@@ -841,6 +880,11 @@ func (fr *Frame) execRecv(t *ssa.UnOp, st *State) error {
 	fr.chanRecvEffect(st, ch.C[0])
 	et := t.X.Type().Underlying().(*types.Chan).Elem()
 	v := vc.freshValue(fr.vname(t), et, st)
+	if c, pkg := fr.chanInvOf(t.X); c != nil {
+		if g, err := fr.chanInvTerm(c, pkg, v, et, st); err == nil {
+			vc.assume(st, g)
+		}
+	}
 	if t.CommaOk {
 		ok := vc.fresh(fr.vname(t)+".ok", "Bool")
 		v.C = append(v.C, ok)
@@ -871,6 +915,14 @@ func (fr *Frame) execSelect(t *ssa.Select, st *State) error {
 			ns = sIte(c, sStore(sentA, ch, iAdd(sSel(sentA, ch), "1")), ns)
 			et := s.Chan.Type().Underlying().(*types.Chan).Elem()
 			sv := fr.val(s.Send)
+			if ci, pkg := fr.chanInvOf(s.Chan); ci != nil && fr.dry == 0 {
+				if g, err := fr.chanInvTerm(ci, pkg, sv, et, st); err == nil {
+					// the value offered must satisfy the invariant whichever arm fires
+					vc.oblige(st, "chaninv", ci.Label, g, t.Pos(), ci.Text)
+				} else {
+					return err
+				}
+			}
 			for k, cp := range comps(et) {
 				key := chanLastKey(et) + cp.Suffix
 				srt := "(Array Int " + cp.Sort + ")"
@@ -890,6 +942,11 @@ func (fr *Frame) execSelect(t *ssa.Select, st *State) error {
 		if s.Dir == types.RecvOnly {
 			et := s.Chan.Type().Underlying().(*types.Chan).Elem()
 			v := vc.freshValue(fr.vname(t)+".recv", et, st)
+			if ci, pkg := fr.chanInvOf(s.Chan); ci != nil {
+				if g, err := fr.chanInvTerm(ci, pkg, v, et, st); err == nil {
+					vc.assume(st, g)
+				}
+			}
 			out.C = append(out.C, v.C...)
 		}
 	}
